@@ -33,8 +33,10 @@ func (u *btbBranchUnit) assert(runner risc.InstructionRunnerPc) {
 			u.toCheck = true
 			u.expectation = -1
 		} else {
-			// Known branch, no need to check
-			u.toCheck = false
+			// Known branch: follow the prediction, but a computed jump (jalr) may
+			// go elsewhere this time, so the resolved target is still compared with it
+			u.toCheck = true
+			u.expectation = nextPc
 			u.fu.reset(nextPc, true)
 		}
 	} else if instructionType.IsConditionalBranch() {
